@@ -16,6 +16,23 @@ from ..engine import Result, ok, finding, assumption, where
 from ..facts import BrokenCheck
 from . import c06
 
+def _compile_body(F):
+    """Compiler::compile with the crate's own helper functions (inherent methods it may have been split into) inlined"""
+    f = F.fn("<tx3_cardano::Compiler as tx3_tir::compile::Compiler>::compile")
+    return mir.inline_calls(F, f, want=_CARDANO_HELPERS, depth=2)
+
+
+def _CARDANO_HELPERS(t, callee):
+    # inherent helpers of the Compiler and small private functions next to it; the compile_* / ops::* functions that other
+    # rules name stay calls
+    if callee["crate"] != "tx3_cardano" or callee.get("impl_trait") or callee.get("trait_default"):
+        return False
+    p = callee["path"]
+    if p.startswith("tx3_cardano::compile::") or p.startswith("tx3_cardano::ops::") or p.startswith("tx3_cardano::coercion::"):
+        return False
+    return len(callee["blocks"]) <= 200
+
+
 META = {
     "level": "other",
     "explanation": (
@@ -133,7 +150,7 @@ def s_feeflow(F, res):
     else:
         res.add([ok("S-FEEFLOW", key1, where(g), "no CompiledTx aggregate or field assignment in tx3_resolver; %d Some(eval) returns are compile()'s result" % nsome)])
     # Compiler::compile: fee = eval_size_fees(&payload ..) of the returned payload
-    c = F.fn("<tx3_cardano::Compiler as tx3_tir::compile::Compiler>::compile")
+    c = _compile_body(F)
     du2 = mir.DefUse(c)
     key2 = c["path"] + "|reported fee is computed from the returned payload"
     aggs = [(bi, s) for bi, si, s in mir.stmts(c) if s["rv"]["k"] == "agg" and s["rv"].get("adt") == "tx3_tir::compile::CompiledTx"]
@@ -197,7 +214,7 @@ def f_fielduse(F, res):
     # extra fees: third argument is used, and compile passes self.config.extra_fees
     used3 = any((mir.op_place(a) or {}).get("l") == 3 for bi, t in mir.calls(f) for a in t["args"]) or any(
         (mir.op_place(o) or {}).get("l") == 3 for bi, si, s in mir.stmts(f) for o in mir.all_operands_of_rv(s["rv"]))
-    c = F.fn("<tx3_cardano::Compiler as tx3_tir::compile::Compiler>::compile")
+    c = _compile_body(F)
     du = mir.DefUse(c)
     passes = False
     for bi, t in mir.calls(c):
